@@ -257,7 +257,7 @@ class Model:
                 cand += [-2, 3, (1 << 62) + (1 << 38) + 1, (1 << 63) + (1 << 39) + 1, (1 << 31), (1 << 24) + 1, -(1 << 31) - 1, 255, 128, -128]
         else:
             cand = [0.0, 1.0, -1.0, 0.5, -1.5, 2.0 ** 24 + 1, 2.0 ** 31, 2.0 ** 32, 2.0 ** 53 + 1, 2.0 ** 63, 2.0 ** 64 - 2.0 ** 11,
-                    1e-30, 3.4e38]
+                    1e-30, 3.4e38, 4294967295.0, 2.0 ** 63 + 2.0 ** 11, 2.0 ** 31 - 128, 255.0, 128.0, 65535.0, 32768.0, 1.8e19]
             if t is DOUBLE:
                 cand.append(1e300)
             if extra:
@@ -501,7 +501,7 @@ def _s2_un(m, spec, nv, extra):
     _, _, op, ab = spec
     t = BYAB[ab]
     good, filt, r = [], 0, None
-    for a in m.values(t, nv, extra):
+    for a in m.values(t, None, extra):      # single operand: the whole value set in every tier
         try:
             r, _ = m.unop(op, t, a)
             good.append(a)
@@ -523,7 +523,7 @@ def _s2_incdec(m, spec, nv, extra):
     t = BYAB[ab]
     op = '+' if 'inc' in form else '-'
     good, filt = [], 0
-    for a in m.values(t, nv, extra):
+    for a in m.values(t, None, extra):
         try:
             m.compound(op, t, a, INT, 1)
             good.append(a)
@@ -550,7 +550,7 @@ def _s2_conv(m, spec, nv, extra):
     _, _, k, a1, a2 = spec
     t1, t2 = BYAB[a1], BYAB[a2]
     good, filt = [], 0
-    for a in m.values(t1, nv, extra):
+    for a in m.values(t1, None, extra):     # conversions: the whole value set in every tier (boundaries of the target type)
         try:
             m.conv(a, t2)
             good.append(a)
